@@ -69,6 +69,10 @@ CHECKS = {
          "history enumeration of publishes against a map-based model over an in-memory fake of the Cloudflare API; API failures as single deviations at every request index",
          "All histories of up to 2 calls with target lists of length <=2 (3) and all histories of 3 calls with lists <=1, from 8 initial parameter strings, with the zone on one or three pages, plus a single API failure of three kinds at every request index, are replayed on a fresh publisher; statuses, the stored values (tokenised) of touched and untouched records and the request log are compared with the model after every call.",
          "parameter values without spaces; fake API follows Cloudflare v4 list semantics (count = items on the page)", "§3 C20"),
+ "C18": ("model_checking", "E3 gosched",
+         "stateless model checking of the real Dial under a controlled scheduler: sources rewritten at check time (goroutines, channels, select, WaitGroup, context, timers -> shims), all schedules up to a deviation bound in virtual time, monitors over the event log",
+         "For every scenario of the grid (1..3 (4) targets x 8 per-target plans x MaxConcurrency x delay/timeout x caller cancellation time) every schedule with at most 1 (2) deviations from the canonical one is executed on the real code; monitors check start order, in-flight bound, staggering (delay or one reported failure per early start), per-attempt timeout, first success wins, every other established connection closed exactly once, joined errors, prompt return on cancellation, cancelled context for attempts after the decision, and termination of every goroutine.",
+         "computation takes zero virtual time; sequentially consistent memory at synchronisation granularity; IP-literal addresses; scripted DialFunc honouring its context; executions per scenario capped (cap reported when hit)", "§3 C18"),
 }
 
 NOT_YET = {}
